@@ -1,7 +1,7 @@
 (* Props_C13.v — C13: profile tests flag both points of an inverted pair, in either cast direction.
    Only statements, `exact <lemma>` and Print Assumptions.
    (statements written out by tools/mk_props.py from the lemmas they restate) *)
-From IoosQc Require Import Base Generated Density DensityProofs.
+From IoosQc Require Import Base Generated Density DensityProofs Skel SkelProofs.
 
 
 (* density_inversion_test: for ALL profiles, lengths, missing placements in density and depth and all threshold options the operational model equals the per-point specification (no hypothesis) *)
@@ -219,6 +219,18 @@ Theorem C13_pressure_zero_net_literal_refuted :
            forallb is_some ps = true /\ pressure_model ps <> pressure_spec ps.
 Proof. exact (@pressure_refuted). Qed.
 Print Assumptions C13_pressure_zero_net_literal_refuted.
+
+(* TRANSLATOR TIE: the flag-assignment skeleton generated from the CURRENT source of density_inversion_test (Generated.skel_density_inversion_test: the sliced views flag_arr[:-1] / flag_arr[1:], the comparison operator, `any(...)` guards, flag constants, the order SUSPECT pair / FAIL pair / MISSING record / MISSING successor, the size guards), run in the model's environment, yields exactly the model's flags *)
+Theorem C13_source_skeleton :
+  forall (st ft : option Q) (rho z : list obs),
+         length rho = length z ->
+         rho <> [] ->
+         density_model st ft rho z =
+         Flags
+           (run_steps (env_density st ft rho z) skel_density_inversion_test
+              (all_flags (length rho) GOOD)).
+Proof. exact (@skel_density). Qed.
+Print Assumptions C13_source_skeleton.
 
 Theorem C13_assign_order :
   assign_order_density_inversion_test = [UNKNOWN; SUSPECT; SUSPECT; FAIL; FAIL; MISSING; MISSING] /\ assign_order_pressure_increasing_test = [SUSPECT].
